@@ -37,6 +37,7 @@ type Run struct {
 	Exp          []ExpEvent // expected events since the last sync, in order
 	step         int
 	nDo          int  // number of steps executed so far (index into the replay)
+	curOp        Op   // the step being executed
 	NoObserveAll bool // only observe the target key (cheap mode; Frame disabled)
 	Poisoned     bool
 }
